@@ -179,4 +179,26 @@ pub open spec fn render_docs(ds: Seq<Seq<char>>) -> Seq<char> {
     else { "/**\n"@ + doc_lines(ds, ds.len() as int) + "\n */\n"@ }
 }
 
+// ---- intersection of object types as ts_rs::__private::intersect writes it (fix D17) ----
+pub open spec fn glue(acc: Seq<char>, ty: Seq<char>) -> Seq<char> {
+    if ends_with(acc, " }"@) && starts_with(ty, "{ "@) { acc.take(acc.len() - 2) + " "@ + ty.skip(2) }
+    else if acc.len() == 0 { ty }
+    else { acc + " & "@ + ty }
+}
+pub open spec fn glue_all(ts: Seq<String>) -> Seq<char>
+    decreases ts.len()
+{ if ts.len() == 0 { Seq::<char>::empty() } else { glue(glue_all(ts.drop_last()), ts.last()@) } }
+pub broadcast proof fn lemma_glue_two(ts: Seq<String>)
+    requires ts.len() == 2,
+    ensures #[trigger] glue_all(ts) == glue(ts[0]@, ts[1]@),
+{
+    reveal_strlit(" }");
+    assert(ts.drop_last().drop_last() =~= Seq::<String>::empty());
+    assert(glue_all(ts.drop_last().drop_last()) =~= Seq::<char>::empty());
+    assert(ts.drop_last().last() == ts[0]);
+    assert(glue_all(ts.drop_last()) == glue(Seq::<char>::empty(), ts[0]@));
+    assert(glue(Seq::<char>::empty(), ts[0]@) == ts[0]@);
+}
+
+
 } // verus!
